@@ -8,9 +8,14 @@
 //   (b) bigBed: the `bin_data.push_back((bin, bin_start, bin_end, vec![0; n], vec![f64::NAN; n]))` statement (2 sites)
 //       and the `match summary { .. }` finalisation over the per-base cells                                   (4 sites)
 //   (c) bigBed exact bins: the per-cell update loops of one entry on one bin                                  (1 site)
+//   (d) bigWig exact bins: the accumulation step of one value on one bin                                      (1 site)
+//   (e) the FRAME of each of the four fillers (the complement of the carve-outs; whole function, 4 extractions): the
+//       initialisation `v.fill(missing)` (the array a caller passes holds ARBITRARY numbers), the integer prologue of every
+//       iteration (`interval_start` / `interval_end`: the item clamped to the request, minus the request's start, as
+//       mathematical integers), the pop loop and the drain loop as far as WHERE a finalisation is stored.
 // Floats are uninterpreted: SHAPE only (which operation on which operands, NaN test as an uninterpreted predicate).
 // NOT covered: the deque bookkeeping (which bins exist, which interval meets which bin, when a bin is popped), the
-// f64 bin arithmetic, the accumulation step of the bigWig fillers, the zoom cell update.  See NOTES.md.
+// f64 bin arithmetic, the zoom cell update / zoom accumulation.  See NOTES.md.
 use vstd::prelude::*;
 use vstd::std_specs::ops::*;
 use vstd::std_specs::convert::FromSpec;
@@ -207,10 +212,10 @@ pub open spec fn imin(a: int, b: int) -> int { if a <= b { a } else { b } }
 // ---- (a) to_array_bins: finalisation of a popped bin, inside the interval loop ----
 //@extract fn pybigtools/src/lib.rs to_array_bins
 //@rule R16
-//@presub /\A.*?let front = bin_data\.pop_front\(\)\.unwrap\(\);\s*let bin = front\.0;\s*(match summary \{.*?)\n\s*\} else \{\s*break;.*\Z/ => fn finish_bin_bwb_loop(front3: Option<(i32, f64)>, summary: Summary, missing: f64, bin_size: f64) -> f64 {\n    let mut r__: f64 = unset_f64();\n    \1\n    r__\n} min=1 count=1
+//@presub /\A.*?let front = bin_data\.pop_front\(\)\.unwrap\(\);\s*let bin = front\.0;\n(?:[ \t]*[^\n{}]+;\n)*?\s*(match summary \{.*?)\n\s*\} else \{\s*break;.*\Z/ => fn finish_bin_bwb_loop(front3: Option<(i32, f64)>, summary: Summary, missing: f64, bin_size: f64) -> f64 {\n    let mut r__: f64 = unset_f64();\n    \1\n    r__\n} min=1 count=1
 //@presub /\s+\.(?=[a-z_0-9])/ => . min=0
 //@presub /\bfront\.3\b/ => front3 min=0
-//@presub /\bv\[bin\] = / => r__ =  min=0
+//@presub /\bv\[[^\]\n]+\] = / => r__ =  min=0
 //@presub /(\w+)\.filter\(\|\((\w+), _\)\| ([^()]*?)\)/ => (match \1 { Some(t__) => { let \2 = &t__.0; if \3 { Some(t__) } else { None } } None => None }) min=0
 //@rule R15
 //@sub /\((\w+) as f64\)/ => as_f64(\1) min=0
@@ -230,10 +235,10 @@ pub open spec fn imin(a: int, b: int) -> int { if a <= b { a } else { b } }
 // ---- (a) to_array_bins: finalisation of a popped bin, the closing drain loop ----
 //@extract fn pybigtools/src/lib.rs to_array_bins
 //@rule R16
-//@presub /\A.*while let Some\(front\) = bin_data\.pop_front\(\) \{\s*let bin = front\.0;\s*(match summary \{.*?)\n\s*\}\s*Ok\(\(\)\)\s*\}\s*\Z/ => fn finish_bin_bwb_drain(front3: Option<(i32, f64)>, summary: Summary, missing: f64, bin_size: f64) -> f64 {\n    let mut r__: f64 = unset_f64();\n    \1\n    r__\n} min=1 count=1
+//@presub /\A.*while let Some\(front\) = bin_data\.pop_front\(\) \{\s*let bin = front\.0;\n(?:[ \t]*[^\n{}]+;\n)*?\s*(match summary \{.*?)\n\s*\}\n(?:[ \t]*[^\n{}]+;\n)*\s*Ok\(\(\)\)\s*\}\s*\Z/ => fn finish_bin_bwb_drain(front3: Option<(i32, f64)>, summary: Summary, missing: f64, bin_size: f64) -> f64 {\n    let mut r__: f64 = unset_f64();\n    \1\n    r__\n} min=1 count=1
 //@presub /\s+\.(?=[a-z_0-9])/ => . min=0
 //@presub /\bfront\.3\b/ => front3 min=0
-//@presub /\bv\[bin\] = / => r__ =  min=0
+//@presub /\bv\[[^\]\n]+\] = / => r__ =  min=0
 //@presub /(\w+)\.filter\(\|\((\w+), _\)\| ([^()]*?)\)/ => (match \1 { Some(t__) => { let \2 = &t__.0; if \3 { Some(t__) } else { None } } None => None }) min=0
 //@rule R15
 //@sub /\((\w+) as f64\)/ => as_f64(\1) min=0
@@ -253,10 +258,10 @@ pub open spec fn imin(a: int, b: int) -> int { if a <= b { a } else { b } }
 // ---- (a) to_array_zoom: finalisation of a popped bin, inside the interval loop ----
 //@extract fn pybigtools/src/lib.rs to_array_zoom
 //@rule R16
-//@presub /\A.*?let front = bin_data\.pop_front\(\)\.unwrap\(\);\s*let bin = front\.0;\s*(match summary \{.*?)\n\s*\} else \{\s*break;.*\Z/ => fn finish_bin_bwz_loop(front3: Option<(i32, f64)>, summary: Summary, missing: f64, bin_size: f64) -> f64 {\n    let mut r__: f64 = unset_f64();\n    \1\n    r__\n} min=1 count=1
+//@presub /\A.*?let front = bin_data\.pop_front\(\)\.unwrap\(\);\s*let bin = front\.0;\n(?:[ \t]*[^\n{}]+;\n)*?\s*(match summary \{.*?)\n\s*\} else \{\s*break;.*\Z/ => fn finish_bin_bwz_loop(front3: Option<(i32, f64)>, summary: Summary, missing: f64, bin_size: f64) -> f64 {\n    let mut r__: f64 = unset_f64();\n    \1\n    r__\n} min=1 count=1
 //@presub /\s+\.(?=[a-z_0-9])/ => . min=0
 //@presub /\bfront\.3\b/ => front3 min=0
-//@presub /\bv\[bin\] = / => r__ =  min=0
+//@presub /\bv\[[^\]\n]+\] = / => r__ =  min=0
 //@presub /(\w+)\.filter\(\|\((\w+), _\)\| ([^()]*?)\)/ => (match \1 { Some(t__) => { let \2 = &t__.0; if \3 { Some(t__) } else { None } } None => None }) min=0
 //@rule R15
 //@sub /\((\w+) as f64\)/ => as_f64(\1) min=0
@@ -276,10 +281,10 @@ pub open spec fn imin(a: int, b: int) -> int { if a <= b { a } else { b } }
 // ---- (a) to_array_zoom: finalisation of a popped bin, the closing drain loop ----
 //@extract fn pybigtools/src/lib.rs to_array_zoom
 //@rule R16
-//@presub /\A.*while let Some\(front\) = bin_data\.pop_front\(\) \{\s*let bin = front\.0;\s*(match summary \{.*?)\n\s*\}\s*Ok\(\(\)\)\s*\}\s*\Z/ => fn finish_bin_bwz_drain(front3: Option<(i32, f64)>, summary: Summary, missing: f64, bin_size: f64) -> f64 {\n    let mut r__: f64 = unset_f64();\n    \1\n    r__\n} min=1 count=1
+//@presub /\A.*while let Some\(front\) = bin_data\.pop_front\(\) \{\s*let bin = front\.0;\n(?:[ \t]*[^\n{}]+;\n)*?\s*(match summary \{.*?)\n\s*\}\n(?:[ \t]*[^\n{}]+;\n)*\s*Ok\(\(\)\)\s*\}\s*\Z/ => fn finish_bin_bwz_drain(front3: Option<(i32, f64)>, summary: Summary, missing: f64, bin_size: f64) -> f64 {\n    let mut r__: f64 = unset_f64();\n    \1\n    r__\n} min=1 count=1
 //@presub /\s+\.(?=[a-z_0-9])/ => . min=0
 //@presub /\bfront\.3\b/ => front3 min=0
-//@presub /\bv\[bin\] = / => r__ =  min=0
+//@presub /\bv\[[^\]\n]+\] = / => r__ =  min=0
 //@presub /(\w+)\.filter\(\|\((\w+), _\)\| ([^()]*?)\)/ => (match \1 { Some(t__) => { let \2 = &t__.0; if \3 { Some(t__) } else { None } } None => None }) min=0
 //@rule R15
 //@sub /\((\w+) as f64\)/ => as_f64(\1) min=0
@@ -347,9 +352,9 @@ pub open spec fn imin(a: int, b: int) -> int { if a <= b { a } else { b } }
 // ---- (b) to_entry_array_bins: finalisation of a popped bin over its per-base cells, inside the interval loop ----
 //@extract fn pybigtools/src/lib.rs to_entry_array_bins
 //@rule R16
-//@presub /\A.*?let front = bin_data\.pop_front\(\)\.unwrap\(\);\s*let bin = front\.0;\s*(match summary \{.*?)\n\s*\} else \{\s*break;.*\Z/ => fn finish_entry_bin_bbb_loop(front3: Vec<i32>, front4: Vec<f64>, summary: Summary, missing: f64, bin_size: f64) -> f64 {\n    let mut r__: f64 = unset_f64();\n    \1\n    r__\n} min=1 count=1
+//@presub /\A.*?let front = bin_data\.pop_front\(\)\.unwrap\(\);\s*let bin = front\.0;\n(?:[ \t]*[^\n{}]+;\n)*?\s*(match summary \{.*?)\n\s*\} else \{\s*break;.*\Z/ => fn finish_entry_bin_bbb_loop(front3: Vec<i32>, front4: Vec<f64>, summary: Summary, missing: f64, bin_size: f64) -> f64 {\n    let mut r__: f64 = unset_f64();\n    \1\n    r__\n} min=1 count=1
 //@presub /\s+\.(?=[a-z_0-9])/ => . min=0
-//@presub /\bv\[bin\] = / => r__ =  min=0
+//@presub /\bv\[[^\]\n]+\] = / => r__ =  min=0
 //@presub /front\.4\.into_iter\(\)\.reduce\(\|(\w+), (\w+)\| \1\.(min|max)\(\2\)\)/ => reduce_\3(&front4) min=0
 //@presub /(reduce_\w+\(&front4\))\.filter\(\|(\w+)\| ([^;]*?)\)\.unwrap_or\(/ => (match \1 { Some(t__) => { let \2 = &t__; if \3 { Some(t__) } else { None } } None => None }).unwrap_or( min=0
 //@presub /front\.3\.iter\(\)\.any\(\|(\w+)\| \*\1 > (\d+)\)/ => any_gt(&front3, \2) min=0
@@ -383,9 +388,9 @@ pub open spec fn imin(a: int, b: int) -> int { if a <= b { a } else { b } }
 // ---- (b) to_entry_array_bins: finalisation of a popped bin over its per-base cells, the closing drain loop ----
 //@extract fn pybigtools/src/lib.rs to_entry_array_bins
 //@rule R16
-//@presub /\A.*while let Some\(front\) = bin_data\.pop_front\(\) \{\s*let bin = front\.0;\s*(match summary \{.*?)\n\s*\}\s*Ok\(\(\)\)\s*\}\s*\Z/ => fn finish_entry_bin_bbb_drain(front3: Vec<i32>, front4: Vec<f64>, summary: Summary, missing: f64, bin_size: f64) -> f64 {\n    let mut r__: f64 = unset_f64();\n    \1\n    r__\n} min=1 count=1
+//@presub /\A.*while let Some\(front\) = bin_data\.pop_front\(\) \{\s*let bin = front\.0;\n(?:[ \t]*[^\n{}]+;\n)*?\s*(match summary \{.*?)\n\s*\}\n(?:[ \t]*[^\n{}]+;\n)*\s*Ok\(\(\)\)\s*\}\s*\Z/ => fn finish_entry_bin_bbb_drain(front3: Vec<i32>, front4: Vec<f64>, summary: Summary, missing: f64, bin_size: f64) -> f64 {\n    let mut r__: f64 = unset_f64();\n    \1\n    r__\n} min=1 count=1
 //@presub /\s+\.(?=[a-z_0-9])/ => . min=0
-//@presub /\bv\[bin\] = / => r__ =  min=0
+//@presub /\bv\[[^\]\n]+\] = / => r__ =  min=0
 //@presub /front\.4\.into_iter\(\)\.reduce\(\|(\w+), (\w+)\| \1\.(min|max)\(\2\)\)/ => reduce_\3(&front4) min=0
 //@presub /(reduce_\w+\(&front4\))\.filter\(\|(\w+)\| ([^;]*?)\)\.unwrap_or\(/ => (match \1 { Some(t__) => { let \2 = &t__; if \3 { Some(t__) } else { None } } None => None }).unwrap_or( min=0
 //@presub /front\.3\.iter\(\)\.any\(\|(\w+)\| \*\1 > (\d+)\)/ => any_gt(&front3, \2) min=0
@@ -419,9 +424,9 @@ pub open spec fn imin(a: int, b: int) -> int { if a <= b { a } else { b } }
 // ---- (b) to_entry_array_zoom: finalisation of a popped bin over its per-base cells, inside the interval loop ----
 //@extract fn pybigtools/src/lib.rs to_entry_array_zoom
 //@rule R16
-//@presub /\A.*?let front = bin_data\.pop_front\(\)\.unwrap\(\);\s*let bin = front\.0;\s*(match summary \{.*?)\n\s*\} else \{\s*break;.*\Z/ => fn finish_entry_bin_bbz_loop(front3: Vec<i32>, front4: Vec<f64>, summary: Summary, missing: f64, bin_size: f64) -> f64 {\n    let mut r__: f64 = unset_f64();\n    \1\n    r__\n} min=1 count=1
+//@presub /\A.*?let front = bin_data\.pop_front\(\)\.unwrap\(\);\s*let bin = front\.0;\n(?:[ \t]*[^\n{}]+;\n)*?\s*(match summary \{.*?)\n\s*\} else \{\s*break;.*\Z/ => fn finish_entry_bin_bbz_loop(front3: Vec<i32>, front4: Vec<f64>, summary: Summary, missing: f64, bin_size: f64) -> f64 {\n    let mut r__: f64 = unset_f64();\n    \1\n    r__\n} min=1 count=1
 //@presub /\s+\.(?=[a-z_0-9])/ => . min=0
-//@presub /\bv\[bin\] = / => r__ =  min=0
+//@presub /\bv\[[^\]\n]+\] = / => r__ =  min=0
 //@presub /front\.4\.into_iter\(\)\.reduce\(\|(\w+), (\w+)\| \1\.(min|max)\(\2\)\)/ => reduce_\3(&front4) min=0
 //@presub /(reduce_\w+\(&front4\))\.filter\(\|(\w+)\| ([^;]*?)\)\.unwrap_or\(/ => (match \1 { Some(t__) => { let \2 = &t__; if \3 { Some(t__) } else { None } } None => None }).unwrap_or( min=0
 //@presub /front\.3\.iter\(\)\.any\(\|(\w+)\| \*\1 > (\d+)\)/ => any_gt(&front3, \2) min=0
@@ -455,9 +460,9 @@ pub open spec fn imin(a: int, b: int) -> int { if a <= b { a } else { b } }
 // ---- (b) to_entry_array_zoom: finalisation of a popped bin over its per-base cells, the closing drain loop ----
 //@extract fn pybigtools/src/lib.rs to_entry_array_zoom
 //@rule R16
-//@presub /\A.*while let Some\(front\) = bin_data\.pop_front\(\) \{\s*let bin = front\.0;\s*(match summary \{.*?)\n\s*\}\s*Ok\(\(\)\)\s*\}\s*\Z/ => fn finish_entry_bin_bbz_drain(front3: Vec<i32>, front4: Vec<f64>, summary: Summary, missing: f64, bin_size: f64) -> f64 {\n    let mut r__: f64 = unset_f64();\n    \1\n    r__\n} min=1 count=1
+//@presub /\A.*while let Some\(front\) = bin_data\.pop_front\(\) \{\s*let bin = front\.0;\n(?:[ \t]*[^\n{}]+;\n)*?\s*(match summary \{.*?)\n\s*\}\n(?:[ \t]*[^\n{}]+;\n)*\s*Ok\(\(\)\)\s*\}\s*\Z/ => fn finish_entry_bin_bbz_drain(front3: Vec<i32>, front4: Vec<f64>, summary: Summary, missing: f64, bin_size: f64) -> f64 {\n    let mut r__: f64 = unset_f64();\n    \1\n    r__\n} min=1 count=1
 //@presub /\s+\.(?=[a-z_0-9])/ => . min=0
-//@presub /\bv\[bin\] = / => r__ =  min=0
+//@presub /\bv\[[^\]\n]+\] = / => r__ =  min=0
 //@presub /front\.4\.into_iter\(\)\.reduce\(\|(\w+), (\w+)\| \1\.(min|max)\(\2\)\)/ => reduce_\3(&front4) min=0
 //@presub /(reduce_\w+\(&front4\))\.filter\(\|(\w+)\| ([^;]*?)\)\.unwrap_or\(/ => (match \1 { Some(t__) => { let \2 = &t__; if \3 { Some(t__) } else { None } } None => None }).unwrap_or( min=0
 //@presub /front\.3\.iter\(\)\.any\(\|(\w+)\| \*\1 > (\d+)\)/ => any_gt(&front3, \2) min=0
@@ -491,7 +496,7 @@ pub open spec fn imin(a: int, b: int) -> int { if a <= b { a } else { b } }
 // ---- (c) to_entry_array_bins: one entry meets one bin: the two per-cell update loops ----
 //@extract fn pybigtools/src/lib.rs to_entry_array_bins
 //@rule R16
-//@presub /\A.*?\n(\s*let overlap_start = .*?for i in &mut covered\[range\] \{.*?\n\s*\})\n\s*\}\n\s*\}\n\s*while let Some\(front\) = bin_data\.pop_front\(\) \{.*\Z/ => fn bump_cells_bbb(bin_start: &i32, bin_end: &i32, interval_start: i32, interval_end: i32, covered: &mut Vec<i32>, data: &mut Vec<f64>) {\n\1\n} min=1 count=1
+//@presub /\A.*?\n(\s*let overlap_start = .*?for i in &mut covered\[range\] \{.*?\n\s*\})\n\s*\}\n\s*\}\n(?:[ \t]*[^\n{}]+;\n)*\s*while let Some\(front\) = bin_data\.pop_front\(\) \{.*\Z/ => fn bump_cells_bbb(bin_start: &i32, bin_end: &i32, interval_start: i32, interval_end: i32, covered: &mut Vec<i32>, data: &mut Vec<f64>) {\n\1\n} min=1 count=1
 //@rule R5
 //@sub /for i in &mut (\w+)\[range(?:\.clone\(\))?\] \{/ => slice_bounds(\1, &range);\n            for k__ in range.start..range.end {\n                let i = cell_mut(\1, k__); min=0
 //@sig
@@ -554,7 +559,7 @@ pub open spec fn imin(a: int, b: int) -> int { if a <= b { a } else { b } }
 // copy's two fields, and the copy is written back after the carved text (same effect as updating through the reference).
 //@extract fn pybigtools/src/lib.rs to_array_bins
 //@rule R16
-//@presub /\A.*?\n(\s*let \(c, v\) = data\.get_or_insert_with\(.*?)\n\s*\}\n\s*\}\n\s*while let Some\(front\) = bin_data\.pop_front\(\) \{.*\Z/ => fn accumulate_bwb(data: &mut Option<(i32, f64)>, summary: Summary, bin_start: &i32, bin_end: &i32, interval_start: i32, interval_end: i32, interval: &Value) {\n\1\n            *data = Some(t__);\n} min=1 count=1
+//@presub /\A.*?\n(\s*let \(c, v\) = data\.get_or_insert_with\(.*?)\n\s*\}\n\s*\}\n(?:[ \t]*[^\n{}]+;\n)*\s*while let Some\(front\) = bin_data\.pop_front\(\) \{.*\Z/ => fn accumulate_bwb(data: &mut Option<(i32, f64)>, summary: Summary, bin_start: &i32, bin_end: &i32, interval_start: i32, interval_end: i32, interval: &Value) {\n\1\n            *data = Some(t__);\n} min=1 count=1
 //@presub /let \(c, v\) = data\.get_or_insert_with\(\|\| \{(.*?)\n\s*\}\);/ => let mut t__: (i32, f64) = match *data { Some(t) => t, None => {\1\n            } };\n            let c = &mut t__.0;\n            let v = &mut t__.1; min=1 count=1
 //@rule R5
 //@rule R12c
@@ -578,6 +583,466 @@ pub open spec fn imin(a: int, b: int) -> int { if a <= b { a } else { b } }
             acc0(*old(data), summary).1.add_spec(f64_of_int(imin(*bin_end as int, interval_end as int) - imax(*bin_start as int, interval_start as int)).mul_spec(f64_of(interval.value))))),
 //@open
     proof { float_ax::float_det(); }
+//@end
+
+// =====================================================================================
+// (e) the FRAME of the four binned fillers (the complement of the carve-outs above): shims and vocabulary
+// =====================================================================================
+//@extract struct bigtools/src/bbi.rs BedEntry
+//@rule R8
+//@sub /#\[derive\([^)]*\)\]\n/ => "" min=0
+//@end
+// bigtools' per-record statistics struct `Summary` (a field of ZoomRecord) is renamed: pybigtools has its own `enum Summary`
+//@extract struct bigtools/src/bbi.rs Summary
+//@rule R8
+//@sub /\bstruct Summary\b/ => struct ZoomSummary min=1
+//@end
+//@extract struct bigtools/src/bbi.rs ZoomRecord
+//@rule R8
+//@sub /\bsummary: Summary\b/ => summary: ZoomSummary min=1
+//@end
+/// `bigtools::BBIReadError` (imported as `_BBIReadError`): opaque.
+#[verifier::external_body]
+#[derive(Debug)]
+pub struct ReadErr { _p: u8 }
+/// R11 shim for the generic stream `I: Iterator<Item = Result<T, _BBIReadError>>` (the reader's interval iterator; same shim
+/// as unit py_perbase): ghost `rest()` = the items it will still yield; `next` yields the head.
+#[verifier::external_body]
+#[verifier::reject_recursive_types(T)]
+pub struct VIter<T> { _p: core::marker::PhantomData<T> }
+impl<T> VIter<T> {
+    pub uninterp spec fn rest(&self) -> Seq<Result<T, ReadErr>>;
+    #[verifier::external_body]
+    pub fn next(&mut self) -> (r: Option<Result<T, ReadErr>>)
+        ensures
+            old(self).rest().len() == 0 ==> r is None && final(self).rest() == old(self).rest(),
+            old(self).rest().len() > 0 ==> r == Some(old(self).rest()[0]) && final(self).rest() == old(self).rest().drop_first(),
+    { unimplemented!() }
+}
+/// R11 shim for `numpy::ndarray::ArrayViewMut<'_, f64, numpy::Ix1>` (the output array, one cell per bin) with a GHOST
+/// record `fin()` of the bin finalisations: bin index -> the value of the LAST `v[bin] = x` statement since the call began.
+/// The CONTENTS of the array on entry are unconstrained (a caller may pass its own `arr=`).
+///   len()          number of cells
+///   fill(x)        every cell := x                      (not a finalisation: `fin()` unchanged)
+///   set_bin(b, x)  `v[b] = x;` (`IndexMut`: PANICS when b >= len, so it returns only for b < len): cell b := x, recorded in `fin()`
+#[verifier::external_body]
+pub struct VBins { _p: u8 }
+impl VBins {
+    pub uninterp spec fn view(&self) -> Seq<f64>;
+    pub uninterp spec fn fin(&self) -> Map<int, f64>;
+    pub open spec fn spec_len(&self) -> usize { self@.len() as usize }
+    #[verifier::external_body]
+    #[verifier::when_used_as_spec(spec_len)]
+    pub fn len(&self) -> (r: usize) ensures r == self@.len(), r == self.spec_len() { unimplemented!() }
+    #[verifier::external_body]
+    pub fn fill(&mut self, x: f64)
+        ensures
+            final(self)@.len() == old(self)@.len(),
+            forall|i: int| 0 <= i < final(self)@.len() ==> (#[trigger] final(self)@[i]) == x,
+            final(self).fin() == old(self).fin(),
+    { unimplemented!() }
+    #[verifier::external_body]
+    pub fn set_bin(&mut self, b: usize, x: f64)
+        ensures
+            b < old(self)@.len(),
+            final(self)@ == old(self)@.update(b as int, x),
+            final(self).fin() == old(self).fin().insert(b as int, x),
+    { unimplemented!() }
+}
+/// `VecDeque::front_mut` (std): None when empty, else a mutable reference to element 0
+#[verifier::external_body]
+pub fn deque_front_mut<T>(d: &mut VecDeque<T>) -> (r: Option<&mut T>)
+    ensures
+        old(d)@.len() == 0 ==> r is None && final(d)@ == old(d)@,
+        old(d)@.len() > 0 ==> r is Some && *r->Some_0 == old(d)@[0] && final(d)@ == old(d)@.update(0, *final(r->Some_0)),
+{ d.front_mut() }
+/// integer calls a rewritten prologue might use, with their REAL contracts (judged, not rejected)
+pub axiom fn ax_lossless_int_from()
+    ensures
+        <i64 as FromSpec<u32>>::obeys_from_spec(), forall|x: u32| #[trigger] <i64 as FromSpec<u32>>::from_spec(x) == x as i64,
+        <i64 as FromSpec<i32>>::obeys_from_spec(), forall|x: i32| #[trigger] <i64 as FromSpec<i32>>::from_spec(x) == x as i64,
+        <u64 as FromSpec<u32>>::obeys_from_spec(), forall|x: u32| #[trigger] <u64 as FromSpec<u32>>::from_spec(x) == x as u64;
+pub assume_specification [i32::saturating_sub] (a: i32, b: i32) -> (r: i32)
+    ensures r == (if a - b > i32::MAX { i32::MAX as int } else if a - b < i32::MIN { i32::MIN as int } else { a - b });
+pub assume_specification [i32::saturating_add] (a: i32, b: i32) -> (r: i32)
+    ensures r == (if a + b > i32::MAX { i32::MAX as int } else if a + b < i32::MIN { i32::MIN as int } else { a + b });
+pub assume_specification [u32::abs_diff] (a: u32, b: u32) -> (r: u32)
+    ensures r == (if a >= b { a - b } else { b - a });
+/// `std::cmp::max(a, b)` / `min` on i32
+pub fn ord_max_i32(a: i32, b: i32) -> (r: i32) ensures r == (if a >= b { a } else { b }) { if a >= b { a } else { b } }
+pub fn ord_min_i32(a: i32, b: i32) -> (r: i32) ensures r == (if a <= b { a } else { b }) { if a <= b { a } else { b } }
+/// `x as usize` for a float (saturating truncation): uninterpreted, NO contract
+#[verifier::external_body]
+pub fn f64_to_usize(x: f64) -> (r: usize) { x as usize }
+/// the number a finalisation `match summary { .. }` reports for a popped bin: its VALUE is under the contracts of the
+/// carve-outs (a)/(b) above; the frame only tracks WHERE it is stored
+#[verifier::external_body]
+pub fn finished_value() -> (r: f64) { unimplemented!() }
+/// the rest of one iteration of the interval loop (new bins pushed, `assert!` loop, accumulation into the deque's bins):
+/// NOT under contract here (float bin arithmetic, `iter_mut` over the deque).  It is handed the deque and the iteration's
+/// locals but NOT the output array: the carve refuses (anchor lost) when that text mentions `v[..]`, `v.fill`, ..
+#[verifier::external_body]
+fn rest_of_iteration<T, B>(interval: &T, interval_start: i32, interval_end: i32, bin_start: usize, bin_end: usize, summary: Summary, bin_size: f64, bin_data: &mut VecDeque<B>) { unimplemented!() }
+
+/// an item of the stream as far as the frame looks at it: its half-open span [start, end)
+pub trait Spanned { spec fn lo(&self) -> int; spec fn hi(&self) -> int; }
+impl Spanned for Value { open spec fn lo(&self) -> int { self.start as int } open spec fn hi(&self) -> int { self.end as int } }
+impl Spanned for BedEntry { open spec fn lo(&self) -> int { self.start as int } open spec fn hi(&self) -> int { self.end as int } }
+impl Spanned for ZoomRecord { open spec fn lo(&self) -> int { self.start as int } open spec fn hi(&self) -> int { self.end as int } }
+/// What the range query `get_interval` / `get_zoom_interval(chrom, max(start,0), min(end,length))` hands to a filler called with
+/// (start, end): items that TOUCH the query, for bigBed entries and zoom records NOT clipped to it (units bb_dec, bw_dec, iters;
+/// py_perbase `bb_answer`).  Since max(start,0) >= start and min(end,length) <= end: `lo <= end && start <= hi`.
+/// Coordinates fit i32 (chromosome length <= i32::MAX, py_perbase robustness remark R2).
+pub open spec fn touches<T: Spanned>(s: Seq<Result<T, ReadErr>>, start: int, end: int) -> bool {
+    forall|i: int| 0 <= i < s.len() && (#[trigger] s[i]) is Ok ==>
+        0 <= s[i]->Ok_0.lo() <= s[i]->Ok_0.hi() && s[i]->Ok_0.hi() <= i32::MAX && start <= s[i]->Ok_0.hi() && s[i]->Ok_0.lo() <= end
+}
+/// a coordinate clamped to the requested range [lo, hi]
+pub open spec fn clamp(x: int, lo: int, hi: int) -> int { if x < lo { lo } else if x > hi { hi } else { x } }
+/// every cell either holds what its last finalisation stored or what it held in `base` (the array right before the interval loop)
+pub open spec fn only_finalised_bins_differ(v: VBins, base: Seq<f64>) -> bool {
+    &&& v@.len() == base.len()
+    &&& forall|b: int| 0 <= b < base.len() ==> #[trigger] v@[b] == (if v.fin().contains_key(b) { v.fin()[b] } else { base[b] })
+}
+
+// ---- (e) to_array_bins: the frame: initialisation, integer prologue of every iteration, where finalisations are stored ----
+#[verifier::loop_isolation(false)]
+//@extract fn pybigtools/src/lib.rs to_array_bins
+//@rule R16
+//@rule R6
+//@rule R12c
+//@presub /\n([ \t]*)while let Some\(bin\) = bin_data\s*\.back\(\)(?:(?!\bv\[|\bv\.(?:fill|iter_mut|index_mut|assign|map_inplace|mapv_inplace|slice_mut|as_slice_mut|iter)\b).)*?\n    \}\n(?=(?:[ \t]*[^\n{}]+;\n)*    while let Some\(front\) = bin_data\.pop_front\(\))/ => \n\1rest_of_iteration(&interval, interval_start, interval_end, bin_start, bin_end, summary, bin_size, &mut bin_data);\n    }\n min=1 count=1
+//@presub /\bv\[([^\]\n]+)\] = (?:[^;\/]|\/(?!\/)|\/\/[^\n]*)*;/ => v.set_bin(\1, finished_value()); min=0
+//@presub /for (\w+) in v\.iter_mut\(\) \{\s*\*\1 = ([\w\.]+);\s*\}/ => v.fill(\2); min=0
+//@sub /<I: Iterator<Item = Result<\w+, _BBIReadError>>>/ => "" min=1
+//@sub /\biter: I\b/ => iter: &mut VIter<Value> min=1
+//@sub /mut v: ArrayViewMut<'_, f64, numpy::Ix1>/ => v: &mut VBins min=1
+//@sub /\b_BBIReadError\b/ => ReadErr min=0
+//@sub /for interval in iter \{/ => loop {\n        let interval = match iter.next() { None => { break; } Some(r__) => r__ }; min=1
+//@sub /(\w+)\.front_mut\(\)/ => deque_front_mut(&mut \1) min=0
+//@sub /\b(?:std::)?cmp::(min|max)\(/ => ord_\1_i32( min=0
+//@sub /(\((?:[^()]|\([^()]*\))*\)|\b\w+) as f64\b/ => as_f64(\1) min=0
+//@sub /\(([^;\n]*\/[^;\n]*)\) as usize;/ => f64_to_usize(\1); min=0
+//@ret r
+//@sig
+    requires
+        [[L: bwb_frame/pre_one_cell_per_bin]]
+        // the caller allocates `bins` cells or checks the size of a passed `arr` (intervals_to_array / entries_to_array)
+        old(v)@.len() == bins,
+        [[L: bwb_frame/pre_request_width_fits_i32]]
+        start <= end, end - start <= i32::MAX,
+        [[L: bwb_frame/pre_query_contract_items_touch_the_request_unclipped]]
+        touches(old(iter).rest(), start as int, end as int),
+        [[L: bwb_frame/pre_no_finalisation_recorded_before_the_call]]
+        // definition of the ghost record; the CONTENTS of `v` on entry are arbitrary
+        old(v).fin() =~= Map::empty(),
+    ensures
+        [[L: bwb_frame/one_number_per_bin]]
+        final(v)@.len() == bins,
+        [[L: bwb_frame/a_bin_no_finalisation_wrote_holds_missing_whatever_the_array_held_on_entry]]
+        r is Ok ==> forall|b: int| 0 <= b < bins && !final(v).fin().contains_key(b) ==> #[trigger] final(v)@[b] == missing,
+        [[L: bwb_frame/a_finalised_bin_keeps_the_value_its_last_finalisation_reported]]
+        r is Ok ==> forall|b: int| 0 <= b < bins && final(v).fin().contains_key(b) ==> #[trigger] final(v)@[b] == final(v).fin()[b],
+//@open
+    proof { float_ax::float_det(); ax_lossless_int_from(); }
+//@at /^\s*loop \{/ before
+    let ghost base = v@;
+//@loop 1
+        invariant
+            [[L: bwb_frame/loop/array_differs_from_its_state_before_the_loop_only_in_finalised_bins]]
+            only_finalised_bins_differ(*v, base),
+            [[L: bwb_frame/loop/frame]]
+            touches(iter.rest(), start as int, end as int),
+        decreases
+            [[L: bwb_frame/loop/termination]]
+            iter.rest().len(),
+//@at /let interval = match iter\.next\(\)/ before
+        let ghost rest0 = iter.rest();
+//@at /let interval = match iter\.next\(\)/ after
+        proof {
+            assert(interval == rest0[0]);
+            assert forall|i: int| 0 <= i < iter.rest().len() implies (#[trigger] iter.rest()[i]) == rest0[i + 1] by {}
+        }
+//@at /^\s*let bin_start = / before
+        proof {
+            // the part of the item inside the request [start, end), relative to `start`: mathematical integers, no wrap for start < 0
+            assert(interval_start == clamp(interval.lo(), start as int, end as int) - start); [[L: bwb_frame/window_start_offset_is_the_item_start_clamped_to_the_request_minus_the_request_start]]
+            assert(interval_end == clamp(interval.hi(), start as int, end as int) - start); [[L: bwb_frame/window_end_offset_is_the_item_end_clamped_to_the_request_minus_the_request_start]]
+            assert(0 <= interval_start <= end - start && 0 <= interval_end <= end - start); [[L: bwb_frame/window_offsets_stay_inside_the_window]]
+        }
+//@loop 2
+            invariant
+                [[L: bwb_frame/pop/array_differs_from_its_state_before_the_loop_only_in_finalised_bins]]
+                only_finalised_bins_differ(*v, base),
+            decreases
+                [[L: bwb_frame/pop/termination]]
+                bin_data@.len(),
+//@at /^ {12}\} else \{\s*$/ before
+                proof { assert(v.fin().contains_key(front.0 as int) && v@[front.0 as int] == v.fin()[front.0 as int]); } [[L: bwb_frame/pop/the_finalisation_is_stored_in_the_cell_of_the_popped_bin]]
+//@loop 3
+        invariant
+            [[L: bwb_frame/drain/array_differs_from_its_state_before_the_loop_only_in_finalised_bins]]
+            only_finalised_bins_differ(*v, base),
+        decreases
+            [[L: bwb_frame/drain/termination]]
+            bin_data@.len(),
+//@loopend 3
+        proof { assert(v.fin().contains_key(front.0 as int) && v@[front.0 as int] == v.fin()[front.0 as int]); } [[L: bwb_frame/drain/the_finalisation_is_stored_in_the_cell_of_the_popped_bin]]
+//@end
+
+// ---- (e) to_array_zoom: the frame: initialisation, integer prologue of every iteration, where finalisations are stored ----
+#[verifier::loop_isolation(false)]
+//@extract fn pybigtools/src/lib.rs to_array_zoom
+//@rule R16
+//@rule R6
+//@rule R12c
+//@presub /\n([ \t]*)while let Some\(bin\) = bin_data\s*\.back\(\)(?:(?!\bv\[|\bv\.(?:fill|iter_mut|index_mut|assign|map_inplace|mapv_inplace|slice_mut|as_slice_mut|iter)\b).)*?\n    \}\n(?=(?:[ \t]*[^\n{}]+;\n)*    while let Some\(front\) = bin_data\.pop_front\(\))/ => \n\1rest_of_iteration(&interval, interval_start, interval_end, bin_start, bin_end, summary, bin_size, &mut bin_data);\n    }\n min=1 count=1
+//@presub /\bv\[([^\]\n]+)\] = (?:[^;\/]|\/(?!\/)|\/\/[^\n]*)*;/ => v.set_bin(\1, finished_value()); min=0
+//@presub /for (\w+) in v\.iter_mut\(\) \{\s*\*\1 = ([\w\.]+);\s*\}/ => v.fill(\2); min=0
+//@sub /<I: Iterator<Item = Result<\w+, _BBIReadError>>>/ => "" min=1
+//@sub /\biter: I\b/ => iter: &mut VIter<ZoomRecord> min=1
+//@sub /mut v: ArrayViewMut<'_, f64, numpy::Ix1>/ => v: &mut VBins min=1
+//@sub /\b_BBIReadError\b/ => ReadErr min=0
+//@sub /for interval in iter \{/ => loop {\n        let interval = match iter.next() { None => { break; } Some(r__) => r__ }; min=1
+//@sub /(\w+)\.front_mut\(\)/ => deque_front_mut(&mut \1) min=0
+//@sub /\b(?:std::)?cmp::(min|max)\(/ => ord_\1_i32( min=0
+//@sub /(\((?:[^()]|\([^()]*\))*\)|\b\w+) as f64\b/ => as_f64(\1) min=0
+//@sub /\(([^;\n]*\/[^;\n]*)\) as usize;/ => f64_to_usize(\1); min=0
+//@ret r
+//@sig
+    requires
+        [[L: bwz_frame/pre_one_cell_per_bin]]
+        // the caller allocates `bins` cells or checks the size of a passed `arr` (intervals_to_array / entries_to_array)
+        old(v)@.len() == bins,
+        [[L: bwz_frame/pre_request_width_fits_i32]]
+        start <= end, end - start <= i32::MAX,
+        [[L: bwz_frame/pre_query_contract_items_touch_the_request_unclipped]]
+        touches(old(iter).rest(), start as int, end as int),
+        [[L: bwz_frame/pre_no_finalisation_recorded_before_the_call]]
+        // definition of the ghost record; the CONTENTS of `v` on entry are arbitrary
+        old(v).fin() =~= Map::empty(),
+    ensures
+        [[L: bwz_frame/one_number_per_bin]]
+        final(v)@.len() == bins,
+        [[L: bwz_frame/a_bin_no_finalisation_wrote_holds_missing_whatever_the_array_held_on_entry]]
+        r is Ok ==> forall|b: int| 0 <= b < bins && !final(v).fin().contains_key(b) ==> #[trigger] final(v)@[b] == missing,
+        [[L: bwz_frame/a_finalised_bin_keeps_the_value_its_last_finalisation_reported]]
+        r is Ok ==> forall|b: int| 0 <= b < bins && final(v).fin().contains_key(b) ==> #[trigger] final(v)@[b] == final(v).fin()[b],
+//@open
+    proof { float_ax::float_det(); ax_lossless_int_from(); }
+//@at /^\s*loop \{/ before
+    let ghost base = v@;
+//@loop 1
+        invariant
+            [[L: bwz_frame/loop/array_differs_from_its_state_before_the_loop_only_in_finalised_bins]]
+            only_finalised_bins_differ(*v, base),
+            [[L: bwz_frame/loop/frame]]
+            touches(iter.rest(), start as int, end as int),
+        decreases
+            [[L: bwz_frame/loop/termination]]
+            iter.rest().len(),
+//@at /let interval = match iter\.next\(\)/ before
+        let ghost rest0 = iter.rest();
+//@at /let interval = match iter\.next\(\)/ after
+        proof {
+            assert(interval == rest0[0]);
+            assert forall|i: int| 0 <= i < iter.rest().len() implies (#[trigger] iter.rest()[i]) == rest0[i + 1] by {}
+        }
+//@at /^\s*let bin_start = / before
+        proof {
+            // the part of the item inside the request [start, end), relative to `start`: mathematical integers, no wrap for start < 0
+            assert(interval_start == clamp(interval.lo(), start as int, end as int) - start); [[L: bwz_frame/window_start_offset_is_the_item_start_clamped_to_the_request_minus_the_request_start]]
+            assert(interval_end == clamp(interval.hi(), start as int, end as int) - start); [[L: bwz_frame/window_end_offset_is_the_item_end_clamped_to_the_request_minus_the_request_start]]
+            assert(0 <= interval_start <= end - start && 0 <= interval_end <= end - start); [[L: bwz_frame/window_offsets_stay_inside_the_window]]
+        }
+//@loop 2
+            invariant
+                [[L: bwz_frame/pop/array_differs_from_its_state_before_the_loop_only_in_finalised_bins]]
+                only_finalised_bins_differ(*v, base),
+            decreases
+                [[L: bwz_frame/pop/termination]]
+                bin_data@.len(),
+//@at /^ {12}\} else \{\s*$/ before
+                proof { assert(v.fin().contains_key(front.0 as int) && v@[front.0 as int] == v.fin()[front.0 as int]); } [[L: bwz_frame/pop/the_finalisation_is_stored_in_the_cell_of_the_popped_bin]]
+//@loop 3
+        invariant
+            [[L: bwz_frame/drain/array_differs_from_its_state_before_the_loop_only_in_finalised_bins]]
+            only_finalised_bins_differ(*v, base),
+        decreases
+            [[L: bwz_frame/drain/termination]]
+            bin_data@.len(),
+//@loopend 3
+        proof { assert(v.fin().contains_key(front.0 as int) && v@[front.0 as int] == v.fin()[front.0 as int]); } [[L: bwz_frame/drain/the_finalisation_is_stored_in_the_cell_of_the_popped_bin]]
+//@end
+
+// ---- (e) to_entry_array_bins: the frame: initialisation, integer prologue of every iteration, where finalisations are stored ----
+#[verifier::loop_isolation(false)]
+//@extract fn pybigtools/src/lib.rs to_entry_array_bins
+//@rule R16
+//@rule R6
+//@rule R12c
+//@presub /\n([ \t]*)while let Some\(bin\) = bin_data\s*\.back\(\)(?:(?!\bv\[|\bv\.(?:fill|iter_mut|index_mut|assign|map_inplace|mapv_inplace|slice_mut|as_slice_mut|iter)\b).)*?\n    \}\n(?=(?:[ \t]*[^\n{}]+;\n)*    while let Some\(front\) = bin_data\.pop_front\(\))/ => \n\1rest_of_iteration(&interval, interval_start, interval_end, bin_start, bin_end, summary, bin_size, &mut bin_data);\n    }\n min=1 count=1
+//@presub /\bv\[([^\]\n]+)\] = (?:[^;\/]|\/(?!\/)|\/\/[^\n]*)*;/ => v.set_bin(\1, finished_value()); min=0
+//@presub /for (\w+) in v\.iter_mut\(\) \{\s*\*\1 = ([\w\.]+);\s*\}/ => v.fill(\2); min=0
+//@sub /<I: Iterator<Item = Result<\w+, _BBIReadError>>>/ => "" min=1
+//@sub /\biter: I\b/ => iter: &mut VIter<BedEntry> min=1
+//@sub /mut v: ArrayViewMut<'_, f64, numpy::Ix1>/ => v: &mut VBins min=1
+//@sub /\b_BBIReadError\b/ => ReadErr min=0
+//@sub /for interval in iter \{/ => loop {\n        let interval = match iter.next() { None => { break; } Some(r__) => r__ }; min=1
+//@sub /(\w+)\.front_mut\(\)/ => deque_front_mut(&mut \1) min=0
+//@sub /\b(?:std::)?cmp::(min|max)\(/ => ord_\1_i32( min=0
+//@sub /(\((?:[^()]|\([^()]*\))*\)|\b\w+) as f64\b/ => as_f64(\1) min=0
+//@sub /\(([^;\n]*\/[^;\n]*)\) as usize;/ => f64_to_usize(\1); min=0
+//@ret r
+//@sig
+    requires
+        [[L: bbb_frame/pre_one_cell_per_bin]]
+        // the caller allocates `bins` cells or checks the size of a passed `arr` (intervals_to_array / entries_to_array)
+        old(v)@.len() == bins,
+        [[L: bbb_frame/pre_request_width_fits_i32]]
+        start <= end, end - start <= i32::MAX,
+        [[L: bbb_frame/pre_query_contract_items_touch_the_request_unclipped]]
+        touches(old(iter).rest(), start as int, end as int),
+        [[L: bbb_frame/pre_no_finalisation_recorded_before_the_call]]
+        // definition of the ghost record; the CONTENTS of `v` on entry are arbitrary
+        old(v).fin() =~= Map::empty(),
+    ensures
+        [[L: bbb_frame/one_number_per_bin]]
+        final(v)@.len() == bins,
+        [[L: bbb_frame/a_bin_no_finalisation_wrote_holds_missing_whatever_the_array_held_on_entry]]
+        r is Ok ==> forall|b: int| 0 <= b < bins && !final(v).fin().contains_key(b) ==> #[trigger] final(v)@[b] == missing,
+        [[L: bbb_frame/a_finalised_bin_keeps_the_value_its_last_finalisation_reported]]
+        r is Ok ==> forall|b: int| 0 <= b < bins && final(v).fin().contains_key(b) ==> #[trigger] final(v)@[b] == final(v).fin()[b],
+//@open
+    proof { float_ax::float_det(); ax_lossless_int_from(); }
+//@at /^\s*loop \{/ before
+    let ghost base = v@;
+//@loop 1
+        invariant
+            [[L: bbb_frame/loop/array_differs_from_its_state_before_the_loop_only_in_finalised_bins]]
+            only_finalised_bins_differ(*v, base),
+            [[L: bbb_frame/loop/frame]]
+            touches(iter.rest(), start as int, end as int),
+        decreases
+            [[L: bbb_frame/loop/termination]]
+            iter.rest().len(),
+//@at /let interval = match iter\.next\(\)/ before
+        let ghost rest0 = iter.rest();
+//@at /let interval = match iter\.next\(\)/ after
+        proof {
+            assert(interval == rest0[0]);
+            assert forall|i: int| 0 <= i < iter.rest().len() implies (#[trigger] iter.rest()[i]) == rest0[i + 1] by {}
+        }
+//@at /^\s*let bin_start = / before
+        proof {
+            // the part of the item inside the request [start, end), relative to `start`: mathematical integers, no wrap for start < 0
+            assert(interval_start == clamp(interval.lo(), start as int, end as int) - start); [[L: bbb_frame/window_start_offset_is_the_item_start_clamped_to_the_request_minus_the_request_start]]
+            assert(interval_end == clamp(interval.hi(), start as int, end as int) - start); [[L: bbb_frame/window_end_offset_is_the_item_end_clamped_to_the_request_minus_the_request_start]]
+            assert(0 <= interval_start <= end - start && 0 <= interval_end <= end - start); [[L: bbb_frame/window_offsets_stay_inside_the_window]]
+        }
+//@loop 2
+            invariant
+                [[L: bbb_frame/pop/array_differs_from_its_state_before_the_loop_only_in_finalised_bins]]
+                only_finalised_bins_differ(*v, base),
+            decreases
+                [[L: bbb_frame/pop/termination]]
+                bin_data@.len(),
+//@at /^ {12}\} else \{\s*$/ before
+                proof { assert(v.fin().contains_key(front.0 as int) && v@[front.0 as int] == v.fin()[front.0 as int]); } [[L: bbb_frame/pop/the_finalisation_is_stored_in_the_cell_of_the_popped_bin]]
+//@loop 3
+        invariant
+            [[L: bbb_frame/drain/array_differs_from_its_state_before_the_loop_only_in_finalised_bins]]
+            only_finalised_bins_differ(*v, base),
+        decreases
+            [[L: bbb_frame/drain/termination]]
+            bin_data@.len(),
+//@loopend 3
+        proof { assert(v.fin().contains_key(front.0 as int) && v@[front.0 as int] == v.fin()[front.0 as int]); } [[L: bbb_frame/drain/the_finalisation_is_stored_in_the_cell_of_the_popped_bin]]
+//@end
+
+// ---- (e) to_entry_array_zoom: the frame: initialisation, integer prologue of every iteration, where finalisations are stored ----
+#[verifier::loop_isolation(false)]
+//@extract fn pybigtools/src/lib.rs to_entry_array_zoom
+//@rule R16
+//@rule R6
+//@rule R12c
+//@presub /\n([ \t]*)while let Some\(bin\) = bin_data\s*\.back\(\)(?:(?!\bv\[|\bv\.(?:fill|iter_mut|index_mut|assign|map_inplace|mapv_inplace|slice_mut|as_slice_mut|iter)\b).)*?\n    \}\n(?=(?:[ \t]*[^\n{}]+;\n)*    while let Some\(front\) = bin_data\.pop_front\(\))/ => \n\1rest_of_iteration(&interval, interval_start, interval_end, bin_start, bin_end, summary, bin_size, &mut bin_data);\n    }\n min=1 count=1
+//@presub /\bv\[([^\]\n]+)\] = (?:[^;\/]|\/(?!\/)|\/\/[^\n]*)*;/ => v.set_bin(\1, finished_value()); min=0
+//@presub /for (\w+) in v\.iter_mut\(\) \{\s*\*\1 = ([\w\.]+);\s*\}/ => v.fill(\2); min=0
+//@sub /<I: Iterator<Item = Result<\w+, _BBIReadError>>>/ => "" min=1
+//@sub /\biter: I\b/ => iter: &mut VIter<ZoomRecord> min=1
+//@sub /mut v: ArrayViewMut<'_, f64, numpy::Ix1>/ => v: &mut VBins min=1
+//@sub /\b_BBIReadError\b/ => ReadErr min=0
+//@sub /for interval in iter \{/ => loop {\n        let interval = match iter.next() { None => { break; } Some(r__) => r__ }; min=1
+//@sub /(\w+)\.front_mut\(\)/ => deque_front_mut(&mut \1) min=0
+//@sub /\b(?:std::)?cmp::(min|max)\(/ => ord_\1_i32( min=0
+//@sub /(\((?:[^()]|\([^()]*\))*\)|\b\w+) as f64\b/ => as_f64(\1) min=0
+//@sub /\(([^;\n]*\/[^;\n]*)\) as usize;/ => f64_to_usize(\1); min=0
+//@ret r
+//@sig
+    requires
+        [[L: bbz_frame/pre_one_cell_per_bin]]
+        // the caller allocates `bins` cells or checks the size of a passed `arr` (intervals_to_array / entries_to_array)
+        old(v)@.len() == bins,
+        [[L: bbz_frame/pre_request_width_fits_i32]]
+        start <= end, end - start <= i32::MAX,
+        [[L: bbz_frame/pre_query_contract_items_touch_the_request_unclipped]]
+        touches(old(iter).rest(), start as int, end as int),
+        [[L: bbz_frame/pre_no_finalisation_recorded_before_the_call]]
+        // definition of the ghost record; the CONTENTS of `v` on entry are arbitrary
+        old(v).fin() =~= Map::empty(),
+    ensures
+        [[L: bbz_frame/one_number_per_bin]]
+        final(v)@.len() == bins,
+        [[L: bbz_frame/a_bin_no_finalisation_wrote_holds_missing_whatever_the_array_held_on_entry]]
+        r is Ok ==> forall|b: int| 0 <= b < bins && !final(v).fin().contains_key(b) ==> #[trigger] final(v)@[b] == missing,
+        [[L: bbz_frame/a_finalised_bin_keeps_the_value_its_last_finalisation_reported]]
+        r is Ok ==> forall|b: int| 0 <= b < bins && final(v).fin().contains_key(b) ==> #[trigger] final(v)@[b] == final(v).fin()[b],
+//@open
+    proof { float_ax::float_det(); ax_lossless_int_from(); }
+//@at /^\s*loop \{/ before
+    let ghost base = v@;
+//@loop 1
+        invariant
+            [[L: bbz_frame/loop/array_differs_from_its_state_before_the_loop_only_in_finalised_bins]]
+            only_finalised_bins_differ(*v, base),
+            [[L: bbz_frame/loop/frame]]
+            touches(iter.rest(), start as int, end as int),
+        decreases
+            [[L: bbz_frame/loop/termination]]
+            iter.rest().len(),
+//@at /let interval = match iter\.next\(\)/ before
+        let ghost rest0 = iter.rest();
+//@at /let interval = match iter\.next\(\)/ after
+        proof {
+            assert(interval == rest0[0]);
+            assert forall|i: int| 0 <= i < iter.rest().len() implies (#[trigger] iter.rest()[i]) == rest0[i + 1] by {}
+        }
+//@at /^\s*let bin_start = / before
+        proof {
+            // the part of the item inside the request [start, end), relative to `start`: mathematical integers, no wrap for start < 0
+            assert(interval_start == clamp(interval.lo(), start as int, end as int) - start); [[L: bbz_frame/window_start_offset_is_the_item_start_clamped_to_the_request_minus_the_request_start]]
+            assert(interval_end == clamp(interval.hi(), start as int, end as int) - start); [[L: bbz_frame/window_end_offset_is_the_item_end_clamped_to_the_request_minus_the_request_start]]
+            assert(0 <= interval_start <= end - start && 0 <= interval_end <= end - start); [[L: bbz_frame/window_offsets_stay_inside_the_window]]
+        }
+//@loop 2
+            invariant
+                [[L: bbz_frame/pop/array_differs_from_its_state_before_the_loop_only_in_finalised_bins]]
+                only_finalised_bins_differ(*v, base),
+            decreases
+                [[L: bbz_frame/pop/termination]]
+                bin_data@.len(),
+//@at /^ {12}\} else \{\s*$/ before
+                proof { assert(v.fin().contains_key(front.0 as int) && v@[front.0 as int] == v.fin()[front.0 as int]); } [[L: bbz_frame/pop/the_finalisation_is_stored_in_the_cell_of_the_popped_bin]]
+//@loop 3
+        invariant
+            [[L: bbz_frame/drain/array_differs_from_its_state_before_the_loop_only_in_finalised_bins]]
+            only_finalised_bins_differ(*v, base),
+        decreases
+            [[L: bbz_frame/drain/termination]]
+            bin_data@.len(),
+//@loopend 3
+        proof { assert(v.fin().contains_key(front.0 as int) && v@[front.0 as int] == v.fin()[front.0 as int]); } [[L: bbz_frame/drain/the_finalisation_is_stored_in_the_cell_of_the_popped_bin]]
 //@end
 
 } // verus!
